@@ -1700,7 +1700,8 @@ def create_valves(net, junctions, elements, et, inner_diameter_mm, opened=True, 
             el_arr = np.array(elements)
             mask = et_arr == typ
             mask_all |= mask
-            _check_multiple_elements(net, el_arr[mask], *matcher[typ])
+            if np.any(mask):
+                _check_multiple_elements(net, el_arr[mask], *matcher[typ])
         not_def = ~mask_all
         if np.any(not_def):
             raise UserWarning('et type %s is not implemented' % et_arr[not_def])
@@ -1713,6 +1714,8 @@ def create_valves(net, junctions, elements, et, inner_diameter_mm, opened=True, 
     # Ensure switches are connected correctly.
     for typ, table, joining_busses in [("pi", "pipe", ["from_junction", "to_junction"])]:
         el = el_arr[et_arr == typ]
+        if not len(el):
+            continue
         bs = net[table].loc[el, joining_busses].values
         not_connected_mask = ~np.isin(b_arr[et_arr == typ], bs)
         if np.any(not_connected_mask):
